@@ -360,9 +360,11 @@ def run(ctx):
     ctx.rule("R01.u", "update model: Parameters._update interpreted abstractly (entry flag x key orders x rejected / unknown key x a key given the value it already holds): every key given "
                       "reaches the validating setter, so update(...) accepts exactly what an assignment accepts", floor=1)
     ctx.rule("R01.m", "setter model: Parameter.__set__ interpreted abstractly on every combination (576) of route x constant/readonly x validation outcome x identity x reference mode x watchers x batching agrees with the specification of this property (see checks/setter_model.py)", floor=1)
-    ctx.rule("R01.n", "namespace model (shared with R13.h): ParameterizedMetaclass.__setattr__ / _clear_params_cache, Parameters.add_parameter and the _cls_parameters property interpreted abstractly on hierarchies of up to three levels and a diamond: after every class-level assignment, add_parameter or removal, `.param[name]` of every class of the hierarchy is the very Parameter object that governs attribute access there -- a stale lookup hands `C.param.x.bounds = ...` to another Parameter than the one that validates assignments to C and its instances: the constraints in force are ignored", floor=1)
+    ctx.rule("R01.r", "Color's hex test accepts exactly the declared value set: the LANGUAGE of the literal pattern, computed from its parse tree (re._parser.parse; nothing is matched) over the "
+                      "abstract alphabet {'#', hex digit, other}, is {#?hhh, #?hhhhhh} anchored at both ends (case-insensitive flags are followed)", floor=1)
+    ctx.rule("R01.w", "namespace model (shared with R13.h): ParameterizedMetaclass.__setattr__ / _clear_params_cache, Parameters.add_parameter and the _cls_parameters property interpreted abstractly on hierarchies of up to three levels and a diamond: after every class-level assignment, add_parameter or removal, `.param[name]` of every class of the hierarchy is the very Parameter object that governs attribute access there -- a stale lookup hands `C.param.x.bounds = ...` to another Parameter than the one that validates assignments to C and its instances: the constraints in force are ignored", floor=1)
     from checks import namespace_model
-    namespace_model.report(ctx, "R01.n")
+    namespace_model.report(ctx, "R01.w")
     ctx.not_decided += ["semantics of re.match / isinstance / `in` (trusted library operations: only that they are consulted is checked)",
                         "Selector membership under concurrent mutation of objects", "accept-iff-spec for value *types* (bool vs int, date vs datetime)"]
     rule_a(ctx)
@@ -372,9 +374,10 @@ def run(ctx):
     rule_g(ctx)
     from checks.c01_bounds import rule_f
     rule_f(ctx)
-    from checks.c01_types import rule_h, rule_regex
+    from checks.c01_types import rule_h, rule_regex, rule_color_pattern
     rule_h(ctx)
     rule_regex(ctx)
+    rule_color_pattern(ctx, "R01.r")
     from checks.shared import inherited_default_revalidated
     inherited_default_revalidated(ctx, "R01.k")
     from checks import selector_model
